@@ -226,6 +226,7 @@ func (ch *chooser) End(w *vs.World) {}
 type budget struct{ c, f int32 }
 
 type Explorer struct {
+	surveySeen map[string]bool
 	sc       *Scenario
 	cache    map[uint64]budget
 	seen     map[uint64]struct{}
@@ -514,6 +515,21 @@ func (ex *Explorer) record(choices []int, fs []vs.Failure, c, f int) bool {
 			}
 		}
 		unk = append(unk, fl)
+	}
+	if len(unk) > 0 && os.Getenv("VERIF_SURVEY") != "" {
+		// development aid: keep searching and collect one representative per distinct failure text
+		ex.st.ViolationCnt++
+		key := unk[0].Clause + "|" + unk[0].Msg
+		if ex.surveySeen == nil {
+			ex.surveySeen = map[string]bool{}
+		}
+		if !ex.surveySeen[key] && len(ex.surveySeen) < 200 {
+			ex.surveySeen[key] = true
+			if v := ex.confirm(choices, unk, c, f); v != nil {
+				ex.st.Violations = append(ex.st.Violations, *v)
+			}
+		}
+		return true
 	}
 	if len(unk) > 0 {
 		ex.st.ViolationCnt++
